@@ -77,7 +77,8 @@ fn enter(rqctx: &RequestContext<Ctx>) -> Hr {
 
 // ------------------------------------------------------------ scalar types
 
-/// unit-variant enum with renamed variants (a referenceable schema: `Color`)
+// unit-variant enum with renamed variants (a referenceable schema: `Color`); no doc
+// comment: the model's enum definition carries no description
 #[derive(Clone, Copy, Debug, PartialEq, Eq, Serialize, Deserialize, JsonSchema, Default)]
 pub enum Color {
     #[default]
@@ -95,10 +96,15 @@ pub trait Sc:
 {
     /// `Params.sty'` of the type: the `Scalars.sty` and, for an enum, its schema name
     fn g() -> String;
+    /// `Extract.presence` of a `#[serde(default)]` field of the type
+    fn g_default() -> String;
 }
 macro_rules! sc_int {
     ($($t:ty => $sg:literal, $bits:literal);*) => {
-        $( impl Sc for $t { fn g() -> String { format!("(mkSt (TInt {} {}) None)", $sg, $bits) } } )*
+        $( impl Sc for $t {
+            fn g() -> String { format!("(mkSt (TInt {} {}) None)", $sg, $bits) }
+            fn g_default() -> String { "(PDef (VInt 0))".into() }
+        } )*
     };
 }
 sc_int!(u8 => "false", 8; u16 => "false", 16; u32 => "false", 32; u64 => "false", 64;
@@ -107,21 +113,63 @@ impl Sc for String {
     fn g() -> String {
         "(mkSt TStr None)".into()
     }
+    fn g_default() -> String {
+        "(PDef (VStr []))".into()
+    }
 }
 impl Sc for bool {
     fn g() -> String {
         "(mkSt TBool None)".into()
+    }
+    fn g_default() -> String {
+        "(PDef (VBool false))".into()
     }
 }
 impl Sc for char {
     fn g() -> String {
         "(mkSt TChar None)".into()
     }
+    fn g_default() -> String {
+        "(PDef (VChar 0))".into()
+    }
 }
 impl Sc for Color {
     fn g() -> String {
         format!("(mkSt {} (Some {}))", G_COLOR, COLOR_NAME)
     }
+    fn g_default() -> String {
+        "(PDef (VEnum [82;101;100]))".into()
+    }
+}
+
+
+// ---------------------------------------------- Gallina field specifications
+
+pub const ST_STR: &str = "(mkSt TStr None)";
+pub const ST_BOOL: &str = "(mkSt TBool None)";
+pub const ST_CHAR: &str = "(mkSt TChar None)";
+pub fn st_int(signed: bool, bits: u32) -> String {
+    format!("(mkSt (TInt {} {}) None)", signed, bits)
+}
+pub const REQ: &str = "PReq";
+pub const OPT: &str = "POpt";
+pub const DEF_INT: &str = "(PDef (VInt 0))";
+pub const DEF_STR: &str = "(PDef (VStr []))";
+/// `FLeaf name ty presence description`
+pub fn lf(name: &str, ty: &str, p: &str, desc: Option<&str>) -> String {
+    format!(
+        "FLeaf {} {} {} {}",
+        dsverif::util::g_str(name),
+        ty,
+        p,
+        dsverif::util::g_opt(&desc, |d| dsverif::util::g_str(d))
+    )
+}
+pub fn flat(items: &[String]) -> String {
+    format!("FFlat [{}]", items.join("; "))
+}
+pub fn spec(items: &[String]) -> String {
+    format!("[{}]", items.join("; "))
 }
 
 // --------------------------------------------------------- response bodies
@@ -266,7 +314,7 @@ async fn h_p1<T: Sc>(rqctx: RequestContext<Ctx>, p: Path<P1<T>>) -> HR<HttpRespo
     Ok(HttpResponseOk(p.into_inner().v))
 }
 pub fn spec_p1<T: Sc>() -> String {
-    format!("[FLeaf [118] {} PReq]", T::g())
+    spec(&[lf("v", &T::g(), REQ, None)])
 }
 
 #[derive(Deserialize, JsonSchema)]
@@ -288,7 +336,7 @@ async fn h_q3<T: Sc>(rqctx: RequestContext<Ctx>, q: Query<Q3<T>>) -> HR<HttpResp
     Ok(HttpResponseOk(Q3Echo { v: q.v, o: q.o, d: q.d }))
 }
 pub fn spec_q3<T: Sc>() -> String {
-    format!("[FLeaf [118] {t} PReq; FLeaf [111] {t} POpt; FLeaf [100] {t} PDft]", t = T::g())
+    spec(&[lf("v", &T::g(), REQ, None), lf("o", &T::g(), OPT, None), lf("d", &T::g(), &T::g_default(), None)])
 }
 
 // ------------------------------------------------------------ query structs
@@ -303,8 +351,15 @@ pub struct QA {
     #[serde(rename = "e-e")]
     pub e: Option<bool>,
 }
-pub const SPEC_QA: &str = "[FLeaf [97] (mkSt (TInt false 8) None) PReq; FLeaf [98] (mkSt (TInt true 16) None) POpt; \
-FLeaf [99] (mkSt (TInt false 32) None) PDft; FLeaf [100] (mkSt TStr None) PReq; FLeaf [101;45;101] (mkSt TBool None) POpt]";
+pub fn spec_qa() -> String {
+    spec(&[
+        lf("a", &st_int(false, 8), REQ, None),
+        lf("b", &st_int(true, 16), OPT, None),
+        lf("c", &st_int(false, 32), DEF_INT, None),
+        lf("d", ST_STR, REQ, None),
+        lf("e-e", ST_BOOL, OPT, None),
+    ])
+}
 async fn h_qa(rqctx: RequestContext<Ctx>, _q: Query<QA>) -> HR<HttpResponseOk<RA>> {
     let mut r = enter(&rqctx);
     Ok(HttpResponseOk(RA::mk(&mut r)))
@@ -317,16 +372,21 @@ pub struct QB {
     pub y: bool,
     pub z: Option<char>,
     pub e: Color,
+    /// an optional colour
     pub oe: Option<Color>,
     #[serde(default)]
     pub de: Color,
 }
 pub fn spec_qb() -> String {
     let c = Color::g();
-    format!(
-        "[FLeaf [120] (mkSt (TInt true 64) None) PReq; FLeaf [121;45;121] (mkSt TBool None) PReq; \
-FLeaf [122] (mkSt TChar None) POpt; FLeaf [101] {c} PReq; FLeaf [111;101] {c} POpt; FLeaf [100;101] {c} PDft]"
-    )
+    spec(&[
+        lf("x", &st_int(true, 64), REQ, None),
+        lf("y-y", ST_BOOL, REQ, None),
+        lf("z", ST_CHAR, OPT, None),
+        lf("e", &c, REQ, None),
+        lf("oe", &c, OPT, Some("an optional colour")),
+        lf("de", &c, &Color::g_default(), None),
+    ])
 }
 async fn h_qb(rqctx: RequestContext<Ctx>, _q: Query<QB>) -> HR<HttpResponseCreated<RC>> {
     let mut r = enter(&rqctx);
@@ -341,8 +401,9 @@ pub struct QD {
     pub q: u16,
     pub r: Option<u64>,
 }
-pub const SPEC_QD: &str = "[FLeaf [112] (mkSt TStr None) POpt; FLeaf [113] (mkSt (TInt false 16) None) PDft; \
-FLeaf [114] (mkSt (TInt false 64) None) POpt]";
+pub fn spec_qd() -> String {
+    spec(&[lf("p", ST_STR, OPT, None), lf("q", &st_int(false, 16), DEF_INT, None), lf("r", &st_int(false, 64), OPT, None)])
+}
 async fn h_qd(rqctx: RequestContext<Ctx>, _q: Query<QD>) -> HR<HttpResponseOk<Vec<String>>> {
     let mut r = enter(&rqctx);
     Ok(HttpResponseOk(Vec::<String>::mk(&mut r)))
@@ -366,16 +427,18 @@ pub struct QF {
     pub lim: Option<u64>,
 }
 pub fn spec_ins() -> String {
-    format!(
-        "[FLeaf [115] (mkSt TStr None) PReq; FLeaf [116] (mkSt TStr None) POpt; FLeaf [117] (mkSt TStr None) PDft; FLeaf [99] {} PReq]",
-        Color::g()
-    )
+    spec(&ins_items())
+}
+pub fn ins_items() -> Vec<String> {
+    vec![
+        lf("s", ST_STR, REQ, None),
+        lf("t", ST_STR, OPT, None),
+        lf("u", ST_STR, DEF_STR, None),
+        lf("c", &Color::g(), REQ, None),
+    ]
 }
 pub fn spec_qf() -> String {
-    format!(
-        "[FFlat {}; FLeaf [116;111;112] (mkSt TStr None) PReq; FLeaf [108;105;109] (mkSt (TInt false 64) None) POpt]",
-        spec_ins()
-    )
+    spec(&[flat(&ins_items()), lf("top", ST_STR, REQ, None), lf("lim", &st_int(false, 64), OPT, None)])
 }
 async fn h_qf(rqctx: RequestContext<Ctx>, _q: Query<QF>) -> HR<HttpResponseAccepted<RB>> {
     let mut r = enter(&rqctx);
@@ -398,7 +461,10 @@ pub struct QFF {
     pub z: Option<String>,
 }
 pub fn spec_qff() -> String {
-    format!("[FFlat [FFlat {}; FLeaf [119] (mkSt TStr None) PReq]; FLeaf [122] (mkSt TStr None) POpt]", spec_ins())
+    spec(&[
+        flat(&[flat(&ins_items()), lf("w", ST_STR, REQ, Some("a documented member"))]),
+        lf("z", ST_STR, OPT, None),
+    ])
 }
 async fn h_qff(rqctx: RequestContext<Ctx>, _q: Query<QFF>) -> HR<HttpResponseOk<RD>> {
     let mut r = enter(&rqctx);
@@ -418,8 +484,12 @@ pub struct QFI {
     pub inner: InI,
     pub k: u16,
 }
-pub const SPEC_QFI: &str = "[FFlat [FLeaf [110] (mkSt (TInt false 32) None) PReq; FLeaf [109] (mkSt (TInt true 8) None) POpt; \
-FLeaf [98] (mkSt TBool None) PReq]; FLeaf [107] (mkSt (TInt false 16) None) PReq]";
+pub fn spec_qfi() -> String {
+    spec(&[
+        flat(&[lf("n", &st_int(false, 32), REQ, None), lf("m", &st_int(true, 8), OPT, None), lf("b", ST_BOOL, REQ, None)]),
+        lf("k", &st_int(false, 16), REQ, None),
+    ])
+}
 async fn h_qfi(rqctx: RequestContext<Ctx>, _q: Query<QFI>) -> HR<HttpResponseOk<u32>> {
     let mut r = enter(&rqctx);
     Ok(HttpResponseOk(u32::mk(&mut r)))
@@ -436,11 +506,12 @@ pub struct PM {
     pub d: u8,
 }
 pub fn spec_pm() -> String {
-    format!(
-        "[FLeaf [97] (mkSt TStr None) PReq; FLeaf [98;45;98] (mkSt (TInt true 64) None) PReq; FLeaf [99] {} PReq; \
-FLeaf [100] (mkSt (TInt false 8) None) PReq]",
-        Color::g()
-    )
+    spec(&[
+        lf("a", ST_STR, REQ, None),
+        lf("b-b", &st_int(true, 64), REQ, None),
+        lf("c", &Color::g(), REQ, None),
+        lf("d", &st_int(false, 8), REQ, None),
+    ])
 }
 async fn h_pm(rqctx: RequestContext<Ctx>, _p: Path<PM>) -> HR<HttpResponseOk<RA>> {
     let mut r = enter(&rqctx);
@@ -458,8 +529,9 @@ pub struct PF {
     pub inner: InP,
     pub b: String,
 }
-pub const SPEC_PF: &str =
-    "[FFlat [FLeaf [97] (mkSt TStr None) PReq; FLeaf [99] (mkSt TChar None) PReq]; FLeaf [98] (mkSt TStr None) PReq]";
+pub fn spec_pf() -> String {
+    spec(&[flat(&[lf("a", ST_STR, REQ, None), lf("c", ST_CHAR, REQ, None)]), lf("b", ST_STR, REQ, None)])
+}
 async fn h_pf(rqctx: RequestContext<Ctx>, _p: Path<PF>) -> HR<HttpResponseOk<bool>> {
     let mut r = enter(&rqctx);
     Ok(HttpResponseOk(bool::mk(&mut r)))
@@ -476,7 +548,9 @@ pub struct PFI {
     pub inner: InPI,
     pub b: String,
 }
-pub const SPEC_PFI: &str = "[FFlat [FLeaf [110] (mkSt (TInt false 16) None) PReq]; FLeaf [98] (mkSt TStr None) PReq]";
+pub fn spec_pfi() -> String {
+    spec(&[flat(&[lf("n", &st_int(false, 16), REQ, None)]), lf("b", ST_STR, REQ, None)])
+}
 async fn h_pfi(rqctx: RequestContext<Ctx>, _p: Path<PFI>) -> HR<HttpResponseOk<bool>> {
     let mut r = enter(&rqctx);
     Ok(HttpResponseOk(bool::mk(&mut r)))
@@ -594,14 +668,17 @@ pub struct Tag {
     pub tag: String,
     pub n: u32,
 }
-pub const SPEC_TAG: &str = "[FLeaf [116;97;103] (mkSt TStr None) PReq; FLeaf [110] (mkSt (TInt false 32) None) PReq]";
+pub fn spec_tag() -> String {
+    spec(&[lf("tag", ST_STR, REQ, None), lf("n", &st_int(false, 32), REQ, None)])
+}
 #[derive(Deserialize, JsonSchema)]
 pub struct QTag {
     pub qtag: String,
     pub qn: Option<u32>,
 }
-pub const SPEC_QTAG: &str =
-    "[FLeaf [113;116;97;103] (mkSt TStr None) PReq; FLeaf [113;110] (mkSt (TInt false 32) None) POpt]";
+pub fn spec_qtag() -> String {
+    spec(&[lf("qtag", ST_STR, REQ, None), lf("qn", &st_int(false, 32), OPT, None)])
+}
 async fn h_all(
     rqctx: RequestContext<Ctx>,
     _p: Path<Tag>,
@@ -718,7 +795,7 @@ pub struct ECtl {
 pub const G_EMODE: &str = "(mkSt (TEnum [[98;97;100];[99;111;100;101;100];[105;110;116;101;114;110;97;108];[117;110;97;118;97;105;108];\
 [110;111;116;95;102;111;117;110;100];[115;116;97;116;117;115];[116;101;97;112;111;116]]) (Some [69;77;111;100;101]))";
 pub fn spec_ectl() -> String {
-    format!("[FLeaf [109;111;100;101] {} PReq]", G_EMODE)
+    spec(&[lf("mode", G_EMODE, REQ, None)])
 }
 fn mk_http_error(mode: EMode, r: &mut Hr) -> HttpError {
     match mode {
@@ -788,84 +865,125 @@ const OCTET: &str = "application/octet-stream";
 const MULTI: &str = "multipart/form-data";
 
 /// what the harness knows about an operation beyond the document: the field
-/// specifications of its Path / Query structs (Gallina, `Params.pspec`)
+/// specifications of its Path / Query structs (Gallina, `Params.pspec`), its
+/// response type (`DocTruth.ckind`, `DocTruth.bkind`; None: `Response<Body>`),
+/// the declared response header names, whether the error type is `HttpError`,
+/// and the body extractor (`DocTruth.body_extractor`)
 #[derive(Clone, Default)]
 pub struct OpInfo {
     pub path_spec: Option<String>,
     pub query_spec: Option<String>,
+    pub resp: Option<(&'static str, &'static str)>,
+    pub hdrs: Vec<&'static str>,
+    pub custom_error: bool,
+    pub body: Option<&'static str>,
 }
+fn info(resp: Option<(&'static str, &'static str)>) -> OpInfo {
+    OpInfo { resp, ..Default::default() }
+}
+impl OpInfo {
+    fn p(mut self, s: String) -> Self {
+        self.path_spec = Some(s);
+        self
+    }
+    fn q(mut self, s: String) -> Self {
+        self.query_spec = Some(s);
+        self
+    }
+    fn h(mut self, h: &[&'static str]) -> Self {
+        self.hdrs = h.to_vec();
+        self
+    }
+    fn ce(mut self) -> Self {
+        self.custom_error = true;
+        self
+    }
+    fn b(mut self, b: &'static str) -> Self {
+        self.body = Some(b);
+        self
+    }
+}
+
+const OK_J: Option<(&str, &str)> = Some(("CkOk", "BkJson"));
+const CREATED_J: Option<(&str, &str)> = Some(("CkCreated", "BkJson"));
+const ACCEPTED_J: Option<(&str, &str)> = Some(("CkAccepted", "BkJson"));
+const BX_JSON: &str = "(BxTyped Extract.CtJson)";
+const BX_FORM: &str = "(BxTyped Extract.CtForm)";
 
 pub fn build_api() -> (ApiDescription<Ctx>, Ctx, BTreeMap<String, OpInfo>) {
     let mut api = ApiDescription::new();
     let mut ops: BTreeMap<String, OpInfo> = BTreeMap::new();
     macro_rules! reg {
-        ($op:expr, $h:expr, $m:expr, $ct:expr, $path:expr, $ps:expr, $qs:expr) => {{
+        ($op:expr, $h:expr, $m:expr, $ct:expr, $path:expr, $info:expr) => {{
             let op: String = $op.to_string();
             api.register(ApiEndpoint::new(op.clone(), $h, $m, $ct, $path, ApiEndpointVersions::All))
                 .expect("register");
-            ops.insert(op, OpInfo { path_spec: $ps, query_spec: $qs });
+            ops.insert(op, $info);
         }};
     }
     macro_rules! reg_scalars {
         ($( $name:literal => $t:ty ),*) => {
             $(
                 reg!(format!("p_{}", $name), h_p1::<$t>, Method::GET, JSON,
-                     &format!("/p/{}/{{v}}", $name), Some(spec_p1::<$t>()), None);
+                     &format!("/p/{}/{{v}}", $name), info(OK_J).p(spec_p1::<$t>()));
                 reg!(format!("q_{}", $name), h_q3::<$t>, Method::GET, JSON,
-                     &format!("/q/{}", $name), None, Some(spec_q3::<$t>()));
+                     &format!("/q/{}", $name), info(OK_J).q(spec_q3::<$t>()));
             )*
         };
     }
     reg_scalars!("str" => String, "u8" => u8, "u16" => u16, "u32" => u32, "u64" => u64,
         "i8" => i8, "i16" => i16, "i32" => i32, "i64" => i64, "bool" => bool, "char" => char,
         "enum" => Color);
-    reg!("qa", h_qa, Method::GET, JSON, "/qa", None, Some(SPEC_QA.to_string()));
-    reg!("qb", h_qb, Method::POST, JSON, "/qb", None, Some(spec_qb()));
-    reg!("qd", h_qd, Method::GET, JSON, "/qd", None, Some(SPEC_QD.to_string()));
-    reg!("qf", h_qf, Method::POST, JSON, "/qf", None, Some(spec_qf()));
-    reg!("qff", h_qff, Method::GET, JSON, "/qff", None, Some(spec_qff()));
-    reg!("qfi", h_qfi, Method::GET, JSON, "/qfi", None, Some(SPEC_QFI.to_string()));
-    reg!("pm", h_pm, Method::GET, JSON, "/pm/{a}/lit/{b-b}/{c}/{d}", Some(spec_pm()), None);
-    reg!("pf", h_pf, Method::GET, JSON, "/pf/{a}/{b}/{c}", Some(SPEC_PF.to_string()), None);
-    reg!("pfi", h_pfi, Method::GET, JSON, "/pfi/{n}/{b}", Some(SPEC_PFI.to_string()), None);
-    reg!("ba", h_ba, Method::PUT, JSON, "/b/a", None, None);
-    reg!("be", h_be, Method::POST, JSON, "/b/e", None, None);
-    reg!("bv", h_bv, Method::PUT, JSON, "/b/v", None, None);
-    reg!("bf", h_bf, Method::PUT, FORM, "/b/f", None, None);
-    reg!("raw", h_raw, Method::PUT, OCTET, "/b/raw", None, None);
-    reg!("stream", h_stream, Method::PUT, OCTET, "/b/stream", None, None);
-    reg!("mp", h_mp, Method::POST, MULTI, "/b/mp", None, None);
-    reg!("all", h_all, Method::PUT, JSON, "/all/{tag}/{n}", Some(SPEC_TAG.to_string()), Some(SPEC_QTAG.to_string()));
-    reg!("r_ok_ra", r_ok::<RA>, Method::GET, JSON, "/r/ok/ra", None, None);
-    reg!("r_ok_rb", r_ok::<RB>, Method::GET, JSON, "/r/ok/rb", None, None);
-    reg!("r_ok_rc", r_ok::<RC>, Method::GET, JSON, "/r/ok/rc", None, None);
-    reg!("r_ok_rd", r_ok::<RD>, Method::GET, JSON, "/r/ok/rd", None, None);
-    reg!("r_ok_u32", r_ok::<u32>, Method::GET, JSON, "/r/ok/u32", None, None);
-    reg!("r_ok_string", r_ok::<String>, Method::GET, JSON, "/r/ok/string", None, None);
-    reg!("r_ok_bool", r_ok::<bool>, Method::GET, JSON, "/r/ok/bool", None, None);
-    reg!("r_ok_f64", r_ok::<f64>, Method::GET, JSON, "/r/ok/f64", None, None);
-    reg!("r_ok_opt", r_ok::<Option<u32>>, Method::GET, JSON, "/r/ok/opt", None, None);
-    reg!("r_ok_optra", r_ok::<Option<RA>>, Method::GET, JSON, "/r/ok/optra", None, None);
-    reg!("r_ok_vec", r_ok::<Vec<RB>>, Method::GET, JSON, "/r/ok/vec", None, None);
-    reg!("r_ok_map", r_ok::<BTreeMap<String, RA>>, Method::GET, JSON, "/r/ok/map", None, None);
-    reg!("r_created_rc", r_created::<RC>, Method::POST, JSON, "/r/created/rc", None, None);
-    reg!("r_created_str", r_created::<String>, Method::POST, JSON, "/r/created/str", None, None);
-    reg!("r_accepted_rd", r_accepted::<RD>, Method::POST, JSON, "/r/accepted/rd", None, None);
-    reg!("r_accepted_vec", r_accepted::<Vec<u32>>, Method::PUT, JSON, "/r/accepted/vec", None, None);
-    reg!("r_ok_free", r_ok_free, Method::GET, JSON, "/r/free/ok", None, None);
-    reg!("r_created_free", r_created_free, Method::POST, JSON, "/r/free/created", None, None);
-    reg!("r_deleted", r_deleted, Method::DELETE, JSON, "/r/deleted", None, None);
-    reg!("r_updated", r_updated, Method::PUT, JSON, "/r/updated", None, None);
-    reg!("r_found", r_found, Method::GET, JSON, "/r/found", None, None);
-    reg!("r_see_other", r_see_other, Method::POST, JSON, "/r/see_other", None, None);
-    reg!("r_temp", r_temp, Method::GET, JSON, "/r/temp", None, None);
-    reg!("r_hdrs", r_hdrs, Method::GET, JSON, "/r/hdrs", None, None);
-    reg!("r_hdrs_empty", r_hdrs_empty, Method::PUT, JSON, "/r/hdrs_empty", None, None);
-    reg!("r_hdrs_unnamed", r_hdrs_unnamed, Method::POST, JSON, "/r/hdrs_unnamed", None, None);
-    reg!("r_raw", r_raw, Method::GET, JSON, "/r/raw", None, None);
-    reg!("e_http", e_http, Method::GET, JSON, "/e/http", None, Some(spec_ectl()));
-    reg!("e_custom", e_custom, Method::GET, JSON, "/e/custom", None, Some(spec_ectl()));
-    reg!("e_custom_ok", e_custom_ok, Method::GET, JSON, "/e/custom_ok", None, Some(SPEC_QA.to_string()));
+    reg!("qa", h_qa, Method::GET, JSON, "/qa", info(OK_J).q(spec_qa()));
+    reg!("qb", h_qb, Method::POST, JSON, "/qb", info(CREATED_J).q(spec_qb()));
+    reg!("qd", h_qd, Method::GET, JSON, "/qd", info(OK_J).q(spec_qd()));
+    reg!("qf", h_qf, Method::POST, JSON, "/qf", info(ACCEPTED_J).q(spec_qf()));
+    reg!("qff", h_qff, Method::GET, JSON, "/qff", info(OK_J).q(spec_qff()));
+    reg!("qfi", h_qfi, Method::GET, JSON, "/qfi", info(OK_J).q(spec_qfi()));
+    reg!("pm", h_pm, Method::GET, JSON, "/pm/{a}/lit/{b-b}/{c}/{d}", info(OK_J).p(spec_pm()));
+    reg!("pf", h_pf, Method::GET, JSON, "/pf/{a}/{b}/{c}", info(OK_J).p(spec_pf()));
+    reg!("pfi", h_pfi, Method::GET, JSON, "/pfi/{n}/{b}", info(OK_J).p(spec_pfi()));
+    reg!("ba", h_ba, Method::PUT, JSON, "/b/a", info(OK_J).b(BX_JSON));
+    reg!("be", h_be, Method::POST, JSON, "/b/e", info(CREATED_J).b(BX_JSON));
+    reg!("bv", h_bv, Method::PUT, JSON, "/b/v", info(OK_J).b(BX_JSON));
+    reg!("bf", h_bf, Method::PUT, FORM, "/b/f", info(CREATED_J).b(BX_FORM));
+    reg!("raw", h_raw, Method::PUT, OCTET, "/b/raw", info(OK_J).b("BxUntyped"));
+    // declared as JSON: the untyped extractors document octet-stream whatever is declared
+    reg!("raw_j", h_raw, Method::POST, JSON, "/b/raw_j", info(OK_J).b("BxUntyped"));
+    reg!("stream", h_stream, Method::PUT, OCTET, "/b/stream", info(OK_J).b("BxStreaming"));
+    reg!("mp", h_mp, Method::POST, MULTI, "/b/mp", info(OK_J).b("BxMultipart"));
+    reg!("all", h_all, Method::PUT, JSON, "/all/{tag}/{n}", info(OK_J).p(spec_tag()).q(spec_qtag()).b(BX_JSON));
+    reg!("r_ok_ra", r_ok::<RA>, Method::GET, JSON, "/r/ok/ra", info(OK_J));
+    reg!("r_ok_rb", r_ok::<RB>, Method::GET, JSON, "/r/ok/rb", info(OK_J));
+    reg!("r_ok_rc", r_ok::<RC>, Method::GET, JSON, "/r/ok/rc", info(OK_J));
+    reg!("r_ok_rd", r_ok::<RD>, Method::GET, JSON, "/r/ok/rd", info(OK_J));
+    reg!("r_ok_u32", r_ok::<u32>, Method::GET, JSON, "/r/ok/u32", info(OK_J));
+    reg!("r_ok_string", r_ok::<String>, Method::GET, JSON, "/r/ok/string", info(OK_J));
+    reg!("r_ok_bool", r_ok::<bool>, Method::GET, JSON, "/r/ok/bool", info(OK_J));
+    reg!("r_ok_f64", r_ok::<f64>, Method::GET, JSON, "/r/ok/f64", info(OK_J));
+    reg!("r_ok_opt", r_ok::<Option<u32>>, Method::GET, JSON, "/r/ok/opt", info(OK_J));
+    reg!("r_ok_optra", r_ok::<Option<RA>>, Method::GET, JSON, "/r/ok/optra", info(OK_J));
+    reg!("r_ok_vec", r_ok::<Vec<RB>>, Method::GET, JSON, "/r/ok/vec", info(OK_J));
+    reg!("r_ok_map", r_ok::<BTreeMap<String, RA>>, Method::GET, JSON, "/r/ok/map", info(OK_J));
+    reg!("r_created_rc", r_created::<RC>, Method::POST, JSON, "/r/created/rc", info(CREATED_J));
+    reg!("r_created_str", r_created::<String>, Method::POST, JSON, "/r/created/str", info(CREATED_J));
+    reg!("r_accepted_rd", r_accepted::<RD>, Method::POST, JSON, "/r/accepted/rd", info(ACCEPTED_J));
+    reg!("r_accepted_vec", r_accepted::<Vec<u32>>, Method::PUT, JSON, "/r/accepted/vec", info(ACCEPTED_J));
+    reg!("r_ok_free", r_ok_free, Method::GET, JSON, "/r/free/ok", info(Some(("CkOk", "BkFreeform"))));
+    reg!("r_created_free", r_created_free, Method::POST, JSON, "/r/free/created", info(Some(("CkCreated", "BkFreeform"))));
+    reg!("r_deleted", r_deleted, Method::DELETE, JSON, "/r/deleted", info(Some(("CkDeleted", "BkEmpty"))));
+    reg!("r_updated", r_updated, Method::PUT, JSON, "/r/updated", info(Some(("CkUpdatedNoContent", "BkEmpty"))));
+    reg!("r_found", r_found, Method::GET, JSON, "/r/found", info(Some(("CkFound", "BkEmpty"))).h(&["location"]));
+    reg!("r_see_other", r_see_other, Method::POST, JSON, "/r/see_other", info(Some(("CkSeeOther", "BkEmpty"))).h(&["location"]));
+    reg!("r_temp", r_temp, Method::GET, JSON, "/r/temp", info(Some(("CkTemporaryRedirect", "BkEmpty"))).h(&["location"]));
+    reg!("r_hdrs", r_hdrs, Method::GET, JSON, "/r/hdrs", info(OK_J).h(&["X-Two", "x-one"]));
+    reg!("r_hdrs_empty", r_hdrs_empty, Method::PUT, JSON, "/r/hdrs_empty",
+         info(Some(("CkUpdatedNoContent", "BkEmpty"))).h(&["X-Two", "x-one"]));
+    reg!("r_hdrs_unnamed", r_hdrs_unnamed, Method::POST, JSON, "/r/hdrs_unnamed", info(CREATED_J));
+    reg!("r_raw", r_raw, Method::GET, JSON, "/r/raw", info(None));
+    reg!("e_http", e_http, Method::GET, JSON, "/e/http", info(OK_J).q(spec_ectl()));
+    reg!("e_custom", e_custom, Method::GET, JSON, "/e/custom", info(OK_J).q(spec_ectl()).ce());
+    reg!("e_custom_ok", e_custom_ok, Method::GET, JSON, "/e/custom_ok", info(OK_J).q(spec_qa()).ce());
     let entered = ops.keys().map(|o| (o.clone(), Arc::new(AtomicU64::new(0)))).collect();
     (api, Ctx { entered }, ops)
 }
